@@ -50,7 +50,7 @@ def NSIG : Nat := 65
 /-- The harness's virtual descriptors and children. -/
 def FD0 : Int := 100
 def NFD : Int := 8
-def PID0 : Int := 5000
+def PID0 : Int := 1000000000
 def NPID : Int := 8
 def MAXW : Int := 96
 /-- Signals the harness raises and reports. -/
@@ -855,7 +855,7 @@ def leaked (st : St) : List Nat :=
 /-! ### operations of the harness -/
 
 inductive Op
-  | new
+  | new (prop : Nat)          -- `new C17` / `new C18`: which property's clauses the specification evaluates (0 = all)
   | beh (b : Beh)
   | act (a : Act)
   | clock (us : Int)
@@ -878,7 +878,7 @@ def applyOp (st : St) (op : Op) : St :=
   let st := { st with log := [] }
   if !st.isOk then st else
   match op with
-  | .new => st
+  | .new _ => st
   | .finish => st
   | .bad => st
   | _ =>
